@@ -7,8 +7,8 @@ Next == /\ ~done /\ done' = TRUE
         /\ \A r \in Outbound : ValidOut(r) => PrintT(<<"TEST", ToJson(r)>>)
         /\ \A r \in Generator : PrintT(<<"TEST", ToJson(r)>>)
 \* table sanity: exactly the rows the requirement names are accepted, the table is total
-Sane == /\ \A r \in Inbound : AcceptIn(r) => ValidIn(r)
-        /\ Cardinality({r \in Inbound : ValidIn(r) /\ AcceptIn(r)}) = 4
+Sane == /\ \A r \in Inbound : (AcceptIn(r) /\ r.chain = "leaf") => ValidIn(r)
+        /\ Cardinality({r \in Inbound : ValidIn(r) /\ AcceptIn(r)}) = 6
         /\ Cardinality({r \in Outbound : ValidOut(r) /\ AcceptOut(r)}) = 1
 ASSUME Sane
 Spec == Init /\ [][Next]_done
